@@ -12,11 +12,15 @@ HAZARDS = [
     "gargelbabel", "\u00df", "\u0130", "e\u0301", "\U0001f600", "\x00", "\u00a0", "\u2013", "9-5", "13-12", "23:30-3:35", "1", "31.", "32", "for", "für", "von", "bis",
     "between", "and", "next", "this", "half", "quarter past", "29th", "feb", "2100", "1899", "99", "1 day", "3 nights", "0 days", "einunddreissig tage",
     "mon", "so", "on", "at", "ab", "not before", "nicht nach", "spätestens", "noon", "midnight", "8 in the evening",
+    # numerals just outside (and on) the range of their field, in every clock / date notation
+    "24 uhr", "24h", "24 o'clock", "24:30", "10:60", "32.1.", "1.13.", "32nd",
+    # decimal digits outside ASCII: Arabic-Indic, fullwidth, and digits of Unicode 16 (the regex module's tables may be newer than the interpreter's)
+    "\u0663 days", "\U00010d43 days", "\U000116d3 uhr",
 ]
 
 HAZARD_CORE = [
     "", "31.04.2019", "29.2.", "31.", "0", "24:00", "12am", "0000", "early", "very early", "morning", "#fun", "-", "an", "am", "9-5", "23:30-3:35",
-    "for", "1 day", "feb", "mon", "at", "ab", "not before", "noon", "2018", "tomorrow", "8", "5pm", "between", "and", "3 nights",
+    "for", "1 day", "feb", "mon", "at", "ab", "not before", "noon", "2018", "tomorrow", "8", "5pm", "between", "and", "3 nights", "\U00010d43 days", "24 uhr",
 ]
 
 
